@@ -295,3 +295,36 @@ def pixel_size_check_width(F, S):
             else:
                 out.append(bad("R-NOWRAP", inst, vp.loc(nd["id"]), vp.qn, "pitch x |height| is formed in 64 bits", "formed in %s: matches modulo 2^%s only" % (nd.get("ct"), nd.get("iw"))))
     return out
+
+
+def divisors_nonzero(F, S, files, functions=None):
+    """Every division or remainder by a non-constant value in the given files is dominated by a test that excludes zero
+    (a divisor read from a file can be 0: the operation then traps)."""
+    out = []
+    n = 0
+    fns = functions if functions is not None else [f for f in F.functions.values() if any(x in f.file for x in files)]
+    for fn in sorted(fns, key=lambda f: f.key):
+        if not fn.cfg or fn.d.get("implicit"):
+            continue
+        sites = [nd for nd in fn.nodes if nd["k"] in ("BinaryOperator", "CompoundAssignOperator") and nd.get("op") in ("/", "%", "/=", "%=")
+                 and fn.term(fn.kids(nd["id"])[1])[0] != "const" and (nd.get("iw") or fn.n(fn.kids(nd["id"])[1]).get("iw"))]
+        if not sites:
+            continue
+        eng = Engine(F, S)
+        eng.analyze(fn, frozenset())
+        for nd in sites:
+            site = final_site_facts(eng, fn, nd["id"])
+            if site is None:
+                continue
+            n += 1
+            d = fn.term(fn.kids(nd["id"])[1])
+            inst = "%s#divisor:%s" % (fn.qn, fmt_term(d))
+            req = "the divisor %s is known to be non-zero where it divides" % fmt_term(d)
+            nz = any((f[0] == "<" and f[1][0] == "const" and f[1][1] >= 0 and f[2] == d) or
+                     (f[0] == "<=" and f[1][0] == "const" and f[1][1] >= 1 and f[2] == d) or
+                     (f[0] == "!=" and d in (f[1], f[2]) and ("const", 0) in (f[1], f[2])) for f in site)
+            if nz:
+                out.append(ok("R-TAINT", inst, fn.loc(nd["id"]), fn.qn, req, "a refusal / test of zero dominates the division"))
+            else:
+                out.append(bad("R-TAINT", inst, fn.loc(nd["id"]), fn.qn, req, "nothing excludes %s == 0 here; facts: %s" % (fmt_term(d), facts_txt(site))))
+    return out, n
